@@ -664,7 +664,17 @@ func c18LLMNRHandler(server *llmnr.Server, remote net.Addr, w llmnr.ResponseWrit
 		}
 	}
 	w.WriteMessage(resp)
-	return true
+	return false // handled: the chain stops here (Server.processHandlers runs the handlers up to the first `false`)
+}
+
+// a catch-all responder registered BEHIND the answering handler: it must never run
+func c18LLMNRCatchAll(server *llmnr.Server, remote net.Addr, w llmnr.ResponseWriter, msg *llmnr.Message) bool {
+	resp := llmnr.CreateResponseFromMessage(msg)
+	for _, q := range msg.Questions {
+		resp.AddAnswerClassINTypeA(q.Name, "10.9.9.9")
+	}
+	w.WriteMessage(resp)
+	return false
 }
 
 // describe: the library's own packet-describing handler (it logs under the logger's lock) runs ahead of the answering
@@ -676,9 +686,9 @@ func c18Describe(server *llmnr.Server, remote net.Addr, w llmnr.ResponseWriter, 
 }
 
 func startLLMNR(describe bool) (*llmnr.Server, *net.UDPAddr, chan error, error) {
-	handlers := []llmnr.Handler{llmnr.HandlerFunc(c18LLMNRHandler)}
+	handlers := []llmnr.Handler{llmnr.HandlerFunc(c18LLMNRHandler), llmnr.HandlerFunc(c18LLMNRCatchAll)}
 	if describe {
-		handlers = []llmnr.Handler{llmnr.HandlerFunc(c18Describe), llmnr.HandlerFunc(c18LLMNRHandler)}
+		handlers = append([]llmnr.Handler{llmnr.HandlerFunc(c18Describe)}, handlers...)
 	}
 	s, err := llmnr.NewServer("udp4", handlers)
 	if err != nil {
